@@ -124,6 +124,8 @@ def c121(ctx):
     if nf2 and first_cmp and second_cmp:
         ctx.order_chain(R, rd, [("discriminant == HEADER_FIRST", first_cmp), ("true_up", tu), ("next_frame (second)", nf2),
                                 ("discriminant != HEADER_SECOND", second_cmp)])
+    if tu and second_cmp:
+        c121_first_needs_second(ctx, rd, tu, second_cmp)
     # the buffered entries are handed out only after a WHOLE or a FIRST+SECOND pair: next_from_buffer at the end is reached
     # only through the WHOLE-equal edge or through the SECOND comparison
     nb = P.call_points(rd, LOG + r"LogIterator::next_from_buffer$")
@@ -146,6 +148,18 @@ def c121(ctx):
         ctx.check(R, rd, "second-gate", p2 is None and bool(second_cmp),
                   "after a FIRST frame the entries are handed out only on the equal edge of discriminant == HEADER_SECOND",
                   "a FIRST frame can be completed by a frame that is not SECOND", pt=pt, path=p2)
+
+
+def c121_first_needs_second(ctx, rd, tu, second_cmp):
+    """Once a FIRST frame has been read, the only way not to fail is a SECOND frame: an end of input there is a cut inside a batch, which the
+    reader cannot tell from `the writer died before the second frame` and must report."""
+    R = "C12.1"
+    starts = [q for t_ in tu for q in P.after(rd, t_)]
+    for p in P.ok_points(rd):
+        q = P.reach(rd, starts, [p], avoid_edges=_equal_edges(rd, second_cmp)) if starts else None
+        ctx.check(R, rd, "first-without-second-is-an-error", q is None and bool(starts), "after a FIRST frame no success exit is reached except through the SECOND frame",
+                  "after a FIRST frame the reader can return success without having read its SECOND frame (an end of input there is answered `log ended`): "
+                  "a log cut between the two frames of a split batch replays without error, minus that batch", pt=p, path=q)
 
 
 def _equal_edges(fn, cmp_pts):
